@@ -1669,3 +1669,31 @@ def _copy_copy(it, lv, ca, node):
     if cn in ("dict", "OrderedDict"):
         return dict_of(it, v)
     raise Unsupported("copy.copy of a non-dict value")
+
+
+@spec("dict.setdefault", "OrderedDict.setdefault")
+def _dict_setdefault(it, lv, ca, node):
+    st = it.st
+    d, k = lv.bound, ca.pos[0]
+    default = ca.pos[1] if len(ca.pos) > 1 else V.VNone
+    p = dict_parts(it, d)
+    st.instantiate_at(k)
+    if st.decide(z3.Select(p["has"], k), f"dict.setdefault@{it.pos(node)}:present"):
+        return st.simp(z3.Select(p["val"], k))
+    dict_set(it, d, k, default)
+    return default
+
+
+@spec("dict.pop", "OrderedDict.pop")
+def _dict_pop(it, lv, ca, node):
+    st = it.st
+    d, k = lv.bound, ca.pos[0]
+    p = dict_parts(it, d)
+    st.instantiate_at(k)
+    if st.decide(z3.Select(p["has"], k), f"dict.pop@{it.pos(node)}:present"):
+        v = st.simp(z3.Select(p["val"], k))
+        dict_remove_at(it, d, k)
+        return v
+    if len(ca.pos) > 1:
+        return ca.pos[1]
+    raise PyRaise(it.new_exc("KeyError"), "pop of a missing key")
